@@ -214,7 +214,7 @@ example : IsLeaf Pd 3 ∧ ¬ IsLeaf Pd 0 := by
 
 /-! ### whole projects: the target's FileIr and the FileIr of every followed import -/
 
-open Rattr.Project Rattr.Resolve
+open Rattr.ResProject Rattr.Resolve
 
 /-- the property for a project: result generation returns the project it was given. -/
 def C14_project_full : Prop :=
